@@ -64,6 +64,9 @@ def check(run, P):
     run.rule("C04.attrs", "every statement attribute read by the controller and by "
              "evaluate_condition is defined for every statement kind", minimum=20)
 
+    run.rule("C04.guardeval", "evaluate_condition evaluates the statement's guard "
+             "afresh on every call", minimum=1)
+    _guardeval(run, P)
     C = P.cls(EC)
     _post(run, P, C)
     _front(run, P, C)
@@ -71,6 +74,29 @@ def check(run, P):
     _reset(run, P, C)
     _sinks(run, P)
     _attrs(run, P, C)
+
+
+def _guardeval(run, P):
+    f = sm.interp_method(P, "evaluate_condition")
+    if f is None:
+        raise AnalysisError("NumpyInterpreter.evaluate_condition not found")
+    st = f.params[1]
+    rets = [r for r in ast.walk(f.node) if isinstance(r, ast.Return)]
+    aliases = {f"{st}.condition"}
+    for s_ in func_body_stmts(f.node):
+        if isinstance(s_, ast.Assign) and norm(s_.value) == f"{st}.condition":
+            aliases |= {t.id for t in s_.targets if isinstance(t, ast.Name)}
+    ok = bool(rets)
+    for r in rets:
+        v = r.value
+        direct = isinstance(v, ast.Call) and dotted(v.func) in ("self.eval_mapper", "self.eval_mapper.rec") \
+            and v.args and norm(v.args[0]) in aliases
+        ok = ok and direct
+    run.ob("C04.guardeval", f, rets[0] if rets else f.node, ok,
+           construct="every return is self.eval_mapper(<stmt>.condition)",
+           why="a guard value remembered from an earlier statement is stale when a "
+               "statement in between changed a variable of the guard: a statement "
+               "runs although its guard is false when it is visited")
 
 
 def _post(run, P, C):
@@ -275,16 +301,20 @@ def _reset(run, P, C):
     if init is None or reset is None:
         raise AnalysisError("ExecutionController.__init__/reset not found")
     containers = []
-    for s in func_body_stmts(init.node):
-        if isinstance(s, ast.Assign) and len(s.targets) == 1:
-            d = dotted(s.targets[0])
-            v = s.value
-            is_cont = isinstance(v, (ast.List, ast.Set, ast.Dict)) or (
-                isinstance(v, ast.Call) and dotted(v.func) in ("set", "list", "dict", "deque"))
-            if d and d.startswith("self.") and is_cont:
-                containers.append(d)
+    for meth in C.methods.values():
+        for s in func_body_stmts(meth.node):
+            if isinstance(s, ast.Assign) and len(s.targets) == 1:
+                d = dotted(s.targets[0])
+                v = s.value
+                is_cont = isinstance(v, (ast.List, ast.Set, ast.Dict)) or (
+                    isinstance(v, ast.Call) and dotted(v.func) in ("set", "list", "dict", "deque")) \
+                    or (isinstance(v, ast.BinOp) and isinstance(v.op, ast.Add)
+                        and "self.plan" in ast.unparse(v))
+                if d and d.startswith("self.") and d.count(".") == 1 and is_cont \
+                        and d not in containers:
+                    containers.append(d)
     if len(containers) < 3:
-        raise AnalysisError(f"ExecutionController.__init__: containers {containers}")
+        raise AnalysisError(f"ExecutionController: containers {containers}")
     for cont in containers:
         ok = False
         for s in func_body_stmts(reset.node):
